@@ -11,6 +11,8 @@ INVARIANT Confluence
 INVARIANT InFlight
 INVARIANT SharedBeforeWork
 INVARIANT SameRepresentation
+INVARIANT DecideLaws
+INVARIANT ExportDecide
 INVARIANT ExportOK
 PROPERTY OwnRowOnly
 PROPERTY Terminates
